@@ -20,7 +20,7 @@ use sos_sync::{
     ForceMerge, MaybeConflict, Merge, MergeOutcome, StorageEventLogs,
     SyncDirection, SyncStatus,
 };
-use std::collections::HashSet;
+use std::collections::{HashMap, HashSet};
 use tracing::instrument;
 
 const PROOF_SCAN_LIMIT: u16 = 32;
@@ -618,8 +618,20 @@ pub trait AutoMerge: RemoteSyncHandler {
             return Ok(AutoMergeStatus::RewindLocal(remote));
         }
 
-        // Combine the event records
-        local.extend(remote);
+        // Combine the event records; an event that was made
+        // independently on both sides (byte-identical so it has
+        // the same commit hash) is a single event so only the
+        // extra remote occurrences are added
+        let mut local_counts: HashMap<CommitHash, usize> = HashMap::new();
+        for record in &local {
+            *local_counts.entry(*record.commit()).or_default() += 1;
+        }
+        for record in remote {
+            match local_counts.get_mut(record.commit()) {
+                Some(count) if *count > 0 => *count -= 1,
+                _ => local.push(record),
+            }
+        }
 
         // Sort by time so the more recent changes will win (LWW)
         local.sort_by(|a, b| a.time().cmp(b.time()));
